@@ -100,6 +100,10 @@ def obligations(cls):
         for a, k, t in d:
             if k == "sub" and t.__type__.__name__ not in permitted:
                 out.append({"kind": "foreign-member-type", "member": t.__type__.__name__})
+    if M.list_elem(cls):
+        # classes whose members are data: an aggregate is no member - not as one of several, not as the only one
+        out.append({"kind": "foreign-member-type", "member": "STATUS", "only": True})
+        out.append({"kind": "foreign-member-type", "member": "BAL", "only": False})
     out.append({"kind": "undeclared-keyword"})
     # sequence order also binds list members against their non-list neighbours, and Unsupported children
     lst = [(a, k, t) for a, k, t in d if k in ("listagg",)]
@@ -319,6 +323,8 @@ def build_violation(ob, base=None):
         desc = _with(cls, [], base)
         permitted = {c.__name__ for c in M.member_types(cls).values()}
         foreign = ob.get("member") or ("STATUS" if "STATUS" not in permitted else "BAL")
+        if ob.get("only"):
+            desc["list"] = []
         desc["list"].append(M.minimal(M.universe()[foreign]))
     elif kind == "undeclared-keyword":
         desc = _with(cls, [], base)
